@@ -55,7 +55,10 @@ C16_TYPES_T = ["bool", "char", "signed char", "unsigned char", "short", "unsigne
                "long", "unsigned long", "long long", "unsigned long long", "float", "double"]
 C16_MIXED_Q = [("unsigned char", "signed char"), ("signed char", "unsigned char"), ("short", "long"), ("int", "unsigned long"),
                ("long", "int"), ("unsigned char", "int"), ("int", "double"), ("double", "int"), ("long", "short"),
-               ("int", "unsigned char"), ("unsigned long", "signed char")]
+               ("int", "unsigned char"), ("unsigned long", "signed char"),
+               # signed left operand with an unsigned right operand of the SAME rank: the promoted result is unsigned and as wide
+               # as the left operand, the value stored is its conversion back (negative when the top bit is set)
+               ("int", "unsigned int"), ("long", "unsigned long")]
 C16_BIN = ["op_add", "op_sub", "op_mul", "op_div", "op_mod", "op_xor", "op_and", "op_or", "op_shl", "op_shr"]
 # rejected by design: ! on numbers; post ++/-- of a tainted_volatile would have to return a copy of sandbox memory by value;
 # tv & tv is refused (binary & with a tainted_volatile right operand collides with the address-of overload)
